@@ -107,6 +107,29 @@ def worker_main(prop: str, tier: str, seed: int, shard: int, of: int, only_group
     mod = importlib.import_module(f"vf.props.{prop}")
     out = {"groups": {}, "shard": shard, "hashseed": os.environ.get("PYTHONHASHSEED")}
     t0 = time.time()
+    # watchdog: a case in which the real code does not come back (e.g. a sampling loop that cannot terminate) is a failure with a
+    # replayable input, not a hang of the check.  Cases take milliseconds to seconds; the limit is far above that even under load.
+    import threading
+    limit = float(os.environ.get("VERIF_CASE_TIMEOUT", "600" if tier == "quick" else "1800"))
+    current = {"group": None, "case": None, "since": None, "st": None}
+
+    def watchdog():
+        while True:
+            time.sleep(5)
+            since = current["since"]
+            if since is not None and time.time() - since > limit:
+                g_, st_ = current["group"], current["st"]
+                st_["failures"].append({"key": f"{g_.name}:no-result-within-{int(limit)}s", "group": g_.name, "case": current["case"],
+                                        "what": f"the real code did not return within {int(limit)} s on this case (non-termination or extreme slowdown)"})
+                st_["secs"] = time.time() - t0
+                st_["distinct"] = sorted(st_["distinct"]) if isinstance(st_["distinct"], set) else st_["distinct"]
+                out["groups"][g_.name] = st_
+                out["wall"] = time.time() - t0
+                sys.stdout.write("\n@@RESULT@@" + jdump(out) + "\n")
+                sys.stdout.flush()
+                os._exit(0)
+
+    threading.Thread(target=watchdog, daemon=True).start()
     for g in mod.groups(tier):
         if only_group and g.name != only_group:
             continue
@@ -123,7 +146,9 @@ def worker_main(prop: str, tier: str, seed: int, shard: int, of: int, only_group
                 st["distinct"].add(stable_hash(case))
             if len(st["samples"]) < 2 and g.nontrivial(case):
                 st["samples"].append(case)
+            current.update(group=g, case=case, since=time.time(), st=st)
             f = run_case(g, case)
+            current["since"] = None
             if f is not None:
                 f["case"] = case
                 f["group"] = g.name
